@@ -158,7 +158,8 @@ func (b *Builder) buildState(nfaRoot nfa.StateID) (StateID, error) {
 	} else {
 		b.matchSlots = append(b.matchSlots, 0)
 	}
-	b.endOnly = append(b.endOnly, isMatch && b.matchAtEnd)
+	endOnly := isMatch && b.matchAtEnd
+	b.endOnly = append(b.endOnly, endOnly)
 	b.nfaToDFA[nfaRoot] = sid
 
 	// Allocate transition row (initialize to dead state)
@@ -168,7 +169,7 @@ func (b *Builder) buildState(nfaRoot nfa.StateID) (StateID, error) {
 	}
 
 	// Build transitions for each byte class
-	err = b.buildTransitions(startIdx, closure)
+	err = b.buildTransitions(startIdx, closure, endOnly)
 	if err != nil {
 		return 0, err
 	}
@@ -350,7 +351,7 @@ type transInfo struct {
 // positions that should be recorded BEFORE consuming the byte.
 //
 //nolint:gocognit // complexity inherent to DFA construction algorithm
-func (b *Builder) buildTransitions(tableIdx int, closure []closureEntry) error {
+func (b *Builder) buildTransitions(tableIdx int, closure []closureEntry, matchAtEnd bool) error {
 	// Track which byte classes have transitions
 	// Key: byte class, Value: target NFA state + source slots
 	byteTransitions := make(map[byte]transInfo)
@@ -365,7 +366,12 @@ func (b *Builder) buildTransitions(tableIdx int, closure []closureEntry) error {
 		// semantics stop here, so the lower-priority byte transitions after it do not
 		// exist (`(|a)` matches the empty string on "a"; Search then sees a dead
 		// state on further input and the caller falls back to the general engines).
+		// (A Match behind an end-of-text assertion only holds at the end of the input: in
+		// the middle of it the lower-priority transitions are still alive.)
 		if state.Kind() == nfa.StateMatch {
+			if matchAtEnd {
+				continue
+			}
 			break
 		}
 
@@ -380,11 +386,10 @@ func (b *Builder) buildTransitions(tableIdx int, closure []closureEntry) error {
 					if existing.targetNFA != next {
 						return ErrNotOnePass
 					}
-					// Merge source slots (multiple paths to same transition)
-					byteTransitions[class] = transInfo{
-						targetNFA: next,
-						slots:     existing.slots | entry.slots,
-					}
+					// Two closure entries lead to the same target on this byte. The closure
+					// is in priority order, so the entry seen first is the preferred path and
+					// its slots are the ones to record; merging the masks would leak the
+					// captures of the lower-priority path (`^(?:a|()a)` on "a": group 1 unset).
 				} else {
 					byteTransitions[class] = transInfo{
 						targetNFA: next,
@@ -403,10 +408,7 @@ func (b *Builder) buildTransitions(tableIdx int, closure []closureEntry) error {
 						if existing.targetNFA != trans.Next {
 							return ErrNotOnePass
 						}
-						byteTransitions[class] = transInfo{
-							targetNFA: trans.Next,
-							slots:     existing.slots | entry.slots,
-						}
+						// same target through a lower-priority path: keep the first slots
 					} else {
 						byteTransitions[class] = transInfo{
 							targetNFA: trans.Next,
